@@ -32,7 +32,7 @@ ASSUMPTIONS = [
     "N = 2..4 iterations (values of non-linear loops grow doubly exponentially)",
 ]
 TIMEOUT = {"quick": 120, "thorough": 300}
-DEADLINE = {"quick": 130, "thorough": 1700}
+DEADLINE = {"quick": 130, "thorough": 1000}
 MIN_DECIDING = {"quick": 8, "thorough": 60}
 REPO = os.environ.get("POLAR_REPO", "/repo")
 
